@@ -773,7 +773,7 @@ class Node:
                 return h(inner)
 
         try:
-            if kind == "interrupt":
+            if kind in ("interrupt", "memerr"):
                 defer = True
                 prefixes = self.trace_prefixes
                 if isinstance(param, dict):
@@ -783,7 +783,7 @@ class Node:
                         prefixes = tuple(self.repo.rstrip("/") + "/ufl/" + f for f in param["files"])
                 else:
                     n = param
-                status, info, _ = faults.run_with_interrupt(body, n, prefixes, defer=defer)
+                status, info, _ = faults.run_with_interrupt(body, n, prefixes, defer=defer, exc=faults.SimMemoryError if kind == "memerr" else None)
             elif kind == "stack":
                 status, info, _ = faults.run_with_stack(body, param)
             else:
